@@ -236,10 +236,10 @@ def check(rep, tier, seed):
     rng = C.rng_for(seed, "C03s")
     sc = []
     per = 8 if tier == "quick" else 200
-    for fam in ("H1v", "H2v"):          # H2: added fields declared in the middle of the struct
-        ids = [K.index_of(env, f"{fam}{i}") for i in range(5)]
-        for w in range(5):
-            for r in range(5):
+    for fam, nv in (("H1v", 5), ("H2v", 5), ("HEv", 4)):   # H2: added fields declared in the middle; HEv: steps on an enum variant
+        ids = [K.index_of(env, f"{fam}{i}") for i in range(nv)]
+        for w in range(nv):
+            for r in range(nv):
                 for v in K.gen_values(rng, env, ids[w], per):
                     sc.append({"cmd": "sx", "w": ids[w], "r": ids[r], "val": v, "sfx": rng.choice(["-", "00", "0102ff"])})
     simpl, smod, hl = K.run_static(harness, model, env, sc, wd, "st")
